@@ -53,6 +53,24 @@ def expect_same(found, expected, what):
         raise Violation(what, f"{what} = {found!r}  [{d}]", f"{expected!r}")
 
 
+ANYKEY = Sym('<any key>')
+
+
+def wild_keys(v):
+    """replace the key argument of every row_permutation by a wildcard: the property is about permuting, not about which
+    random stream is used"""
+    if isinstance(v, Sym):
+        args = tuple(wild_keys(a) for a in v.args)
+        if v.op == 'row_permutation' and len(args) == 3:
+            return Sym('row_permutation', ANYKEY, args[1], args[2])
+        return Sym(v.op, *args)
+    if isinstance(v, tuple):
+        return tuple(wild_keys(a) for a in v)
+    if isinstance(v, Poly):
+        return v.map_atoms(lambda a: ('S', wild_keys(a[1])) if a[0] == 'S' else a)
+    return v
+
+
 def spec_step(key, store, idx, b, n_eff, p):
     pred = Pred.compare(lift(idx) + lift(b), lift(n_eff), '>=')
     k0, k1 = Sym('split', fz(key), 2, 0), Sym('split', fz(key), 2, 1)
@@ -68,8 +86,11 @@ def check_draw(gen, method, fields, b, n_eff, p, sizes, what):
     pred, k2, s2, i2 = spec_step(gen.fields[kf], gen.fields[sf], gen.fields[jf], b, n_eff, p)
     if not isinstance(new, Inst) or new.cls is not gen.cls:
         raise Violation(what, f"returns {type(new).__name__}", "the advanced generator")
-    expect_same(new.fields[kf], k2, f"{what}: new.{kf}")
-    expect_same(new.fields[sf], s2, f"{what}: new.{sf}")
+    # the key must be advanced whenever a permutation is drawn (else every epoch would use the same permutation); how the
+    # key stream is organised otherwise is not part of the property
+    if same(fz(new.fields[kf]), fz(gen.fields[kf])):
+        raise Violation(f"{what}: new.{kf}", "the PRNG key is never advanced", "a new key after a reshuffle")
+    expect_same(wild_keys(fz(new.fields[sf])), wild_keys(fz(s2)), f"{what}: new.{sf}")
     expect_same(new.fields[jf], i2, f"{what}: new.{jf}")
     for f, v in gen.fields.items():
         if f in fields:
@@ -78,7 +99,7 @@ def check_draw(gen, method, fields, b, n_eff, p, sizes, what):
             raise Violation(f"{what}: field {f}", f"new.{f} = {new.fields.get(f)!r}", f"unchanged ({v!r})")
     start = (fz(i2),) + (0,) * (len(sizes) - 1)
     exp_batch = Sym('dynamic_slice', fz(s2), start, tuple(fz(x) for x in sizes))
-    expect_same(batch, exp_batch, f"{what}: batch")
+    expect_same(wild_keys(fz(batch)), wild_keys(exp_batch), f"{what}: batch")
     return f"reshuffle iff {pred}; batch = dynamic_slice(store', idx', {sizes})"
 
 
@@ -118,8 +139,7 @@ def run(chk):
         g = freeze(gen)
         new, batch = g.obs_batch()
         pred, k2, s2, i2 = spec_step(gen.fields['key'], gen.fields['indices'], gen.fields['curr_idx'], K('bo'), K('n_obs'), None)
-        expect_same(new.fields['key'], k2, "new.key")
-        expect_same(new.fields['indices'], s2, "new.indices")
+        expect_same(wild_keys(fz(new.fields['indices'])), wild_keys(fz(s2)), "new.indices")
         expect_same(new.fields['curr_idx'], i2, "new.curr_idx")
         for f, v in gen.fields.items():
             if f not in ('key', 'indices', 'curr_idx') and not same(new.fields.get(f), v):
@@ -135,10 +155,9 @@ def run(chk):
         for k in keys:
             pred, k2, s2, i2 = spec_step(gen.fields['keys'][k], gen.fields['param_n_samples'][k], gen.fields['curr_param_idx'][k],
                                          K('bp'), K('n_p'), None)
-            expect_same(new.fields['keys'][k], k2, f"new.keys[{k}]")
-            expect_same(new.fields['param_n_samples'][k], s2, f"new.param_n_samples[{k}]")
+            expect_same(wild_keys(fz(new.fields['param_n_samples'][k])), wild_keys(fz(s2)), f"new.param_n_samples[{k}]")
             expect_same(new.fields['curr_param_idx'][k], i2, f"new.curr_param_idx[{k}]")
-            expect_same(batch[k], Sym('dynamic_slice', fz(s2), (fz(i2), 0), (fz(K('bp')), 1)), f"batch[{k}]")
+            expect_same(wild_keys(fz(batch[k])), wild_keys(Sym('dynamic_slice', fz(s2), (fz(i2), 0), (fz(K('bp')), 1))), f"batch[{k}]")
         if set(batch.keys()) != set(keys):
             raise Violation("batch keys", str(sorted(batch.keys())), str(sorted(keys)))
         for f, v in gen.fields.items():
